@@ -26,8 +26,11 @@ import (
 	"strings"
 
 	"github.com/robfig/soy"
+	"github.com/robfig/soy/ast"
 	"github.com/robfig/soy/data"
 	"github.com/robfig/soy/soyhtml"
+	"github.com/robfig/soy/soymsg"
+	"github.com/robfig/soy/template"
 	"soyverif/internal/hx"
 )
 
@@ -83,13 +86,57 @@ func (w *shortCap) Write(p []byte) (int, error) {
 	return n, io.ErrShortWrite
 }
 
-func execInto(tofu *soyhtml.Tofu, name string, d data.Map, w io.Writer) (err error) {
+func execInto(tofu *soyhtml.Tofu, name string, d data.Map, w io.Writer, msgs soymsg.Bundle) (err error) {
 	defer func() {
 		if r := recover(); r != nil {
 			err = fmt.Errorf("PANIC: %v", r)
 		}
 	}()
-	return tofu.NewRenderer(name).Execute(w, d)
+	r := tofu.NewRenderer(name)
+	if msgs != nil {
+		r = r.WithMessages(msgs)
+	}
+	return r.Execute(w, d)
+}
+
+// c12Msgs is a "translation" of every plural-free message of a registry: the source parts behind a marker,
+// so that rendering goes through evalMsgParts (exec.go:396-403, its own checked write).
+type c12Msgs map[uint64]*soymsg.Message
+
+func (b c12Msgs) Locale() string                    { return "xx" }
+func (b c12Msgs) Message(id uint64) *soymsg.Message { return b[id] }
+func (b c12Msgs) PluralCase(n int) int              { return 0 }
+
+func c12Translate(reg *template.Registry) c12Msgs {
+	out := c12Msgs{}
+	var visit func(n ast.Node)
+	visit = func(n ast.Node) {
+		if n == nil {
+			return
+		}
+		if m, ok := n.(*ast.MsgNode); ok {
+			plural := false
+			for _, c := range m.Body.Children() {
+				if _, ok := c.(*ast.MsgPluralNode); ok {
+					plural = true
+				}
+			}
+			if !plural {
+				msg := soymsg.NewMessage(m.ID, soymsg.PlaceholderString(m))
+				msg.Parts = append([]soymsg.Part{soymsg.RawTextPart{Text: "[tr]"}}, msg.Parts...)
+				out[m.ID] = msg
+			}
+		}
+		if p, ok := n.(ast.ParentNode); ok {
+			for _, c := range p.Children() {
+				visit(c)
+			}
+		}
+	}
+	for _, f := range reg.SoyFiles {
+		visit(f)
+	}
+	return out
 }
 
 type c12Case struct {
@@ -97,6 +144,7 @@ type c12Case struct {
 	Template string    `json:"template"`
 	Data     string    `json:"data"`
 	Fault    string    `json:"fault"` // "none" | "call:<k>:sticky" | "call:<k>:transient" | "bytes:<b>"
+	Msgs     bool      `json:"with_message_bundle,omitempty"`
 }
 
 func runC12(e *env) {
@@ -119,6 +167,9 @@ func runC12(e *env) {
 		{"{foreach $c in ['<', '>', '&']}{$c}{/foreach}{$x|escapeUri}", data.Map{"x": data.String("a b")}},
 		{"{msg desc=\"d\"}Hello <b>{$x}</b>!{/msg}{css foo}", data.Map{"x": data.String("'w'")}},
 		{"{log}{$x}{/log}{$x}{$x.y}", data.Map{"x": data.String("<")}},
+		// message parts at the very end of the file: their positions must stay inside the source
+		// (errRecover slices the source at the failing node's position)
+		{"{msg desc=\"d\"}Hello <b>{$x}</b>, this is <i>long</i> <a href=\"x\">enough</a>{/msg}", data.Map{"x": data.String("w")}},
 	}
 	for j, f := range fixed {
 		files := []srcFile{{"fixed.soy", "{namespace fx}\n\n/**\n * @param x\n */\n{template .t}\n" + f.body + "\n{/template}\n"}}
@@ -155,9 +206,14 @@ func c12Bundle(e *env, key string, files []srcFile, entry string, dataSets []dat
 		e.res.Fail(hx.Violation{Kind: "mismatch", What: "model cannot load the registry", Case: c12Case{Files: files, Template: entry}, Observed: fmt.Sprint(r)}, "")
 		modelOK = false
 	}
+	msgs := c12Translate(reg)
 	for _, d := range dataSets {
 		dsx := valueSexp(d, ids)
-		c12Render(e, key, tofu, files, entry, d, dsx, modelOK, sample)
+		c12Render(e, key, tofu, files, entry, d, dsx, modelOK, sample, nil)
+		if len(msgs) > 0 {
+			// the same sweep with a message bundle: oracle only (the model renders without one)
+			c12Render(e, key, tofu, files, entry, d, dsx, false, false, msgs)
+		}
 	}
 }
 
@@ -169,16 +225,22 @@ type c12Inj struct {
 	injected bool // the writer actually refused something
 }
 
-func c12Render(e *env, key string, tofu *soyhtml.Tofu, files []srcFile, entry string, d data.Map, dsx string, modelOK bool, sample bool) {
-	mk := func(fault string) c12Case { return c12Case{Files: files, Template: entry, Data: dsx, Fault: fault} }
+func c12Render(e *env, key string, tofu *soyhtml.Tofu, files []srcFile, entry string, d data.Map, dsx string, modelOK bool, sample bool, msgs soymsg.Bundle) {
+	mk := func(fault string) c12Case {
+		return c12Case{Files: files, Template: entry, Data: dsx, Fault: fault, Msgs: msgs != nil}
+	}
 	rec := &recWriter{}
-	err0 := execInto(tofu, entry, d, rec)
+	err0 := execInto(tofu, entry, d, rec, msgs)
 	var out0 []byte
 	for _, c := range rec.calls {
 		out0 = append(out0, c...)
 	}
 	nontrivial := len(rec.calls) >= 2
-	e.res.Count(fmt.Sprint(files)+dsx, nontrivial, "render")
+	if msgs != nil {
+		e.res.Count(fmt.Sprint(files)+dsx+"+msgs", nontrivial, "render-with-message-bundle")
+	} else {
+		e.res.Count(fmt.Sprint(files)+dsx, nontrivial, "render")
+	}
 	e.res.Histogram["write-calls"] += len(rec.calls)
 	e.res.Histogram["output-bytes"] += len(out0)
 	if err0 != nil {
@@ -193,7 +255,7 @@ func c12Render(e *env, key string, tofu *soyhtml.Tofu, files []srcFile, entry st
 	for k := 0; k <= len(rec.calls); k++ {
 		for _, sticky := range []bool{true, false} {
 			w := &failAt{k: k, sticky: sticky}
-			err := execInto(tofu, entry, d, w)
+			err := execInto(tofu, entry, d, w, msgs)
 			mode := "transient"
 			if sticky {
 				mode = "sticky"
@@ -203,7 +265,7 @@ func c12Render(e *env, key string, tofu *soyhtml.Tofu, files []srcFile, entry st
 	}
 	for bb := 0; bb <= len(out0); bb++ {
 		w := &shortCap{left: bb}
-		err := execInto(tofu, entry, d, w)
+		err := execInto(tofu, entry, d, w, msgs)
 		injs = append(injs, &c12Inj{fault: fmt.Sprintf("bytes:%d", bb), cl: "none", bl: fmt.Sprintf("#%d", bb), err: err, acc: w.acc, injected: w.failed})
 	}
 
@@ -212,6 +274,12 @@ func c12Render(e *env, key string, tofu *soyhtml.Tofu, files []srcFile, entry st
 		e.res.Histogram["injections"]++
 		if in.injected {
 			e.res.Histogram["injections-refused"]++
+		}
+		if isPanicErr(in.err) && !isPanicErr(err0) {
+			// the property asks for a returned error: a panic out of Render is not one
+			e.res.Fail(hx.Violation{Kind: "oracle", What: "the writer returned an error and Render panicked instead of returning an error", Case: mk(in.fault),
+				Expected: "a non-nil error", Observed: errStr(in.err)}, "")
+			continue
 		}
 		if in.injected && in.err == nil {
 			e.res.Fail(hx.Violation{Kind: "oracle", What: "the writer returned an error and Render returned nil", Case: mk(in.fault),
@@ -308,6 +376,13 @@ func c12Render(e *env, key string, tofu *soyhtml.Tofu, files []srcFile, entry st
 			continue
 		}
 		macc := strings.Join(ws, "")
+		if isPanicErr(in.err) {
+			// judged by the oracle above; the model's image of it is Crash (LineNumber's slice inside errRecover)
+			if cls != "crash" {
+				e.res.Fail(hx.Violation{Kind: "mismatch", What: "implementation panics, model outcome " + rs[j-1][0], Case: mk(in.fault), Observed: errStr(in.err)}, "")
+			}
+			continue
+		}
 		if (cls == "ok") != (in.err == nil) || (cls != "ok" && cls != "err") {
 			e.res.Fail(hx.Violation{Kind: "mismatch", What: "model outcome " + rs[j-1][0] + " vs implementation error " + hx.Q(errStr(in.err)), Case: mk(in.fault)}, "")
 			continue
